@@ -34,12 +34,15 @@ MISSING = object()
 NORMALIZATION_CODES = (0x61, 0x62, 0x63, 0x64)
 
 
-def walk_doc(doc, path):
+def walk_doc(doc, path, items_at=()):
     """`items` judges any sized iterable: below a string an index is a character (below a mapping it is the position of a
     key: see check_error)"""
     cur = doc
-    for k in path:
+    for n, k in enumerate(path):
         if isinstance(cur, Mapping):
+            if tuple(path[:n]) in items_at and isinstance(k, int) and not isinstance(k, bool) and 0 <= k < len(cur):
+                cur = list(cur)[k]          # `items` on a mapping enumerates its keys
+                continue
             if k not in cur:
                 return MISSING
             cur = cur[k]
@@ -128,7 +131,7 @@ def resolve_schema_path(v, schema, path, au):
     return cur
 
 
-def check_error(v, e, parent, case, top_doc):
+def check_error(v, e, parent, case, top_doc, items_at=()):
     """returns failure text or None"""
     if (e.code, e.rule) not in DEFS:
         return 'code %#x and rule %r do not belong to one error definition' % (e.code, e.rule)
@@ -145,10 +148,10 @@ def check_error(v, e, parent, case, top_doc):
     if under_keys:
         pass      # checked below for direct children only
     elif e.code == cerr.REQUIRED_FIELD.code:
-        par = walk_doc(top_doc, e.document_path[:-1])
+        par = walk_doc(top_doc, e.document_path[:-1], items_at)
         if par is MISSING:
             return 'required-field error at %r: the parent path does not resolve' % (e.document_path,)
-        got = walk_doc(top_doc, e.document_path)
+        got = walk_doc(top_doc, e.document_path, items_at)
         if got is not MISSING and got is not None:
             return 'required-field error at %r although the field is present' % (e.document_path,)
         # the violated constraint is `required: True` of the field or `require_all: True` of its level — except for a
@@ -175,12 +178,7 @@ def check_error(v, e, parent, case, top_doc):
             if isinstance(level, Mapping) and not excluded:
                 return 'required-field error at %r carries the constraint %r' % (e.document_path, e.constraint)
     else:
-        got = walk_doc(top_doc, e.document_path)
-        if parent is not None and parent.code == cerr.BAD_ITEMS.code and len(e.document_path) == len(parent.document_path) + 1:
-            cont = walk_doc(top_doc, parent.document_path)
-            k = e.document_path[-1]
-            if isinstance(cont, Mapping) and isinstance(k, int) and 0 <= k < len(cont):
-                got = list(cont)[k]
+        got = walk_doc(top_doc, e.document_path, items_at)
         if got is MISSING:
             return 'document_path %r does not resolve in the processed document' % (e.document_path,)
         if not same(got, e.value):
@@ -212,17 +210,19 @@ def oracle(ctx, case, jcase, normalize):
         except Exception:
             pass
 
-    def rec(errs, parent):
+    def rec(errs, parent, items_at=frozenset()):
+        # items_at: document paths of the values that an `items` rule above these errors iterated
         nonlocal n
         for e in errs:
             n += 1
-            msg = check_error(out.v, e, parent, case, out.v.document)
+            msg = check_error(out.v, e, parent, case, out.v.document, items_at)
             ctx.dist('depth', min(len(e.document_path), 5))
             if msg:
                 ctx.fail('C12 oracle: ' + msg, dict(jcase, normalize=normalize), detail={'code': hex(e.code), 'dp': repr(e.document_path), 'sp': repr(e.schema_path)})
                 return False
             if e.code & 0x80:
-                if not rec(e.info[0], e):
+                below = items_at | {tuple(e.document_path)} if e.code == cerr.BAD_ITEMS.code else items_at
+                if not rec(e.info[0], e, below):
                     return False
         return True
     rec(out.errors, None)
